@@ -159,7 +159,7 @@ def trace_of(tracefile, hid):
     return out
 
 
-def campaign(ctx, exe, name, histories, facets, jobs=8, confirm=True):
+def campaign(ctx, exe, name, histories, facets, jobs=8, confirm=True, labels=None):
     """Run histories through the real library and validate the trace against each facet.
 
     facets: list of (tracespec, cfg, keep_event_kinds, sk_ops or None).
@@ -179,7 +179,15 @@ def campaign(ctx, exe, name, histories, facets, jobs=8, confirm=True):
         missing = [h for h in hist if h not in verdicts]
         if missing:
             raise vlib.MachineryError("no verdict for %d histories (e.g. %s) from %s" % (len(missing), missing[0], spec))
+        noos = sum(1 for v in verdicts.values() if v.get("oos"))
+        if noos:
+            ctx.notes.setdefault("histories_partly_out_of_facet_scope", {})
+            ctx.notes["histories_partly_out_of_facet_scope"][name + ":" + spec] = noos
         for hid, v in verdicts.items():
+            if v["verdict"] == "REJ" and labels is not None and not v["label"].startswith(tuple(labels)):
+                ctx.notes.setdefault("rejections_owned_by_other_properties", {}).setdefault(v["label"], 0)
+                ctx.notes["rejections_owned_by_other_properties"][v["label"]] += 1
+                continue
             if v["verdict"] == "REJ" and hid in hist:
                 rejected.setdefault(hid, []).append((spec, cfg, keep, sk_ops, v))
         os.unlink(proj)
@@ -253,7 +261,7 @@ def count_nontrivial(histories, trace):
     return len(seen), nontrivial
 
 
-def engine_check(ctx, gens, facets, jobs=12):
+def engine_check(ctx, gens, facets, jobs=12, labels=None):
     """Common body of the engine checks.
     gens: list of dicts {module, cfg, simulate (opt), depth (opt), name}."""
     exe = ctx.build_harness("sim")
@@ -266,7 +274,7 @@ def engine_check(ctx, gens, facets, jobs=12):
         ctx.log("generator %s/%s: %d histories" % (g["module"], g["cfg"], n))
         if n == 0:
             raise vlib.MachineryError("generator produced no histories")
-        campaign(ctx, exe, g["name"], hist, facets, jobs=jobs)
+        campaign(ctx, exe, g["name"], hist, facets, jobs=jobs, labels=labels)
         d, nt = count_nontrivial(hist, os.path.join(ctx.out, g["name"] + ".trace.ndjson"))
         ctx.cov["distinct_nontrivial"] += nt
         tot += n
